@@ -128,7 +128,9 @@ func runWorkload(w workload) (msg string, maxInflight int32, evals int64) {
 					r := formula.NewRunner()
 					d := c08Data(j)
 					if d != nil {
-						d["salt"], d["saltn"] = salt, saltn
+						if salted[ti] {
+							d["salt"], d["saltn"] = salt, saltn
+						}
 						r.SetThis(d)
 					}
 					cur := atomic.AddInt32(&inflight[ti], 1)
